@@ -34,6 +34,8 @@ ASSERTS = [
     ("bassert_zero", "{b}.assert_zero()"), ("bassert_nonzero", "{b}.assert_nonzero()"),
     ("fassert_lt", "{f}.assert_lt({f})"), ("fassert_le_c", "{f}.assert_le({c})"), ("fassert_gt", "{f}.assert_gt({f})"),
     ("fassert_ge_i", "{f}.assert_ge({i})"), ("fassert_eq", "{f}.assert_eq({f})"), ("fassert_ne_c", "{f}.assert_ne({c})"),
+    ("fassert_gt_b", "{f}.assert_gt({b})"), ("fassert_le_b", "{f}.assert_le({b})"), ("fassert_eq_i", "{f}.assert_eq({i})"),
+    ("fassert_lt_K", "{f}.assert_lt({K})"), ("fassert_ne_b", "{f}.assert_ne({b})"), ("fassert_range_iK", "{f}.assert_range({i}, {K})"),
     ("fassert_positive", "{f}.assert_positive()"), ("fassert_zero", "{f}.assert_zero()"),
     ("fassert_nonzero", "{f}.assert_nonzero()"), ("fassert_range", "{f}.assert_range({c}, {c})"),
     ("unpack_intmod", "PackIntMod({m}).unpack({i}.to_bits(({m} - 1).bit_length()), 0)"),
